@@ -193,7 +193,7 @@ package nsqd
 //@ ghost kBqEmptyQueue BackendQueue
 //@ ghost kBqEmptyErr error
 //@ ghost kBqEmptySawInitPQs int
-//@ ghostgroup kBqEmpties, kBqEmptyQueue, kBqEmptyErr, kBqEmptySawInitPQs
+//@ ghostgroup kBqEmpties, kBqEmptyQueue, kBqEmptyErr, kBqEmptySawInitPQs, jBackendEmptyErr, jChanEmptyCalls, jTopicEmptyCalls
 //@ ghost kBqDeletes int
 //@ ghost kBqDeleteQueue BackendQueue
 //@ ghost kBqDeleteErr error
@@ -212,9 +212,15 @@ package nsqd
 // the subscribers' in-flight counters are reset (Consumer.Empty), the memory queues are drained - received and
 // dropped, nothing is written to the backend or re-enqueued - and then the backend is emptied; its error is
 // the result. No message counter is touched (depth / in-flight / deferred go to 0 with the containers).
+// (frames usable by callers; type-wide versions of the modifies lists of Channel.Empty / DeleteExistingChannel)
+//@ modset channelEmptyFrame := Channel.clients, mapstore(map[int64]Consumer), clientV2.InFlightCount, kConsEmptied, kLastCons, Channel.inFlightMessages, Channel.inFlightPQ,
+//@        mapstore(map[MessageID]*Message), Message.index, Channel.deferredMessages, Channel.deferredPQ, mapstore(map[MessageID]*pqueue.Item), kInitPQs, kBqEmpties, chanstore(*Message), jChanEmptyCalls, elems(*Message)
+//@ modset deleteChannelFrame := Topic.channelMap, mapstore(map[string]*Channel), kNotifies, onceSpawns, Channel.exitFlag, kConsClosed, channelEmptyFrame,
+//@        kBqDeletes, kChanDeletes, kBqCloses, kFlushes, backendWrites, lastWriteMsg, lastWriteQueue, lastWriteErr, chanstore(int), jDelChanCalls
 //@ func (c *Channel) Empty() error
 //@   props C08 C13
 //@   requires flowChan(c)
+//@   requires c != nil
 //@   ensures[queues-reset-once] kInitPQs == old(kInitPQs) + 1 && kInitPQChan == c
 //@   ensures[backend-emptied-once] kBqEmpties == old(kBqEmpties) + 1 && kBqEmptyQueue == c.backend
 //@   ensures[backend-error-returned] result == kBqEmptyErr
@@ -226,9 +232,10 @@ package nsqd
 //@   ensures[emptied-are-subscribers] kConsEmptied > old(kConsEmptied) ==> atunlock(kIsSubscriber(c, now(kLastCons)))
 //@   ensures[only-emptied] kConsClosed == old(kConsClosed) && kConsPaused == old(kConsPaused) && kConsUnpaused == old(kConsUnpaused) && kConsTimedOut == old(kConsTimedOut)
 //@   ensures[counters-untouched] c.messageCount == old(c.messageCount) && c.requeueCount == old(c.requeueCount) && c.timeoutCount == old(c.timeoutCount) && c.exitFlag == old(c.exitFlag) && c.paused == old(c.paused)
-//@   modifies c.clients, mapstore(map[int64]Consumer), clientV2.InFlightCount, kConsEmptied, kLastCons,
-//@        c.inFlightMessages, c.inFlightPQ, mapstore(map[MessageID]*Message), Message.index, c.deferredMessages, c.deferredPQ, mapstore(map[MessageID]*pqueue.Item),
-//@        kInitPQs, kBqEmpties, chanstore(*Message)
+//@   modifies c.clients, mapstore(map[int64]Consumer), clientV2.InFlightCount, kConsEmptied, kLastCons, c.inFlightMessages, c.inFlightPQ, mapstore(map[MessageID]*Message), Message.index, c.deferredMessages, c.deferredPQ, mapstore(map[MessageID]*pqueue.Item), kInitPQs, kBqEmpties, chanstore(*Message)
+//@   onreturn jChanEmptyCalls := jChanEmptyCalls + 1
+//@   onreturn jChanEmptied := c
+//@   onreturn jChanEmptyErr := result
 //@   loop 0
 //@     invariant[reset-done] kInitPQs == old(kInitPQs) + 1 && kInitPQChan == c && kBqEmpties == old(kBqEmpties)
 //@     invariant[subscriptions-kept] c.clients == atlock(c.clients) && len(c.clients) == atlock(len(c.clients)) && (forall id int64 :: {c.clients[id]} (has(c.clients, id) <==> atlock(has(c.clients, id))) && c.clients[id] == atlock(c.clients[id]))
@@ -398,11 +405,21 @@ package nsqd
 //@   requires c != nil
 //@   ensures[paused] c.paused == 1 && kConsUnpaused == old(kConsUnpaused)
 //@   ensures[recorded] gChanPauseCalls == old(gChanPauseCalls) + 1 && gChanPauseChan == c && gChanPauseVal
-//@   modifies c.paused, c.clients, mapstore(map[int64]Consumer), kConsPaused, kConsUnpaused, kLastCons, gChanPauseCalls
+//@   ensures[paused-j] c.paused == 1
+//@   modifies c.paused, c.clients, mapstore(map[int64]Consumer), kConsPaused, kConsUnpaused, kLastCons, gChanPauseCalls, jChanPauseCalls
+//@   onreturn jChanPauseCalls := jChanPauseCalls + 1
+//@   onreturn jChanPaused := c
+//@   onreturn jChanPauseVal := true
+//@   onreturn jChanPauseErr := result
 
 //@ func (c *Channel) UnPause() error
 //@   props C08 C03
 //@   requires c != nil
 //@   ensures[unpaused] c.paused == 0 && kConsPaused == old(kConsPaused)
 //@   ensures[recorded] gChanPauseCalls == old(gChanPauseCalls) + 1 && gChanPauseChan == c && !gChanPauseVal
-//@   modifies c.paused, c.clients, mapstore(map[int64]Consumer), kConsPaused, kConsUnpaused, kLastCons, gChanPauseCalls
+//@   ensures[unpaused-j] c.paused == 0
+//@   modifies c.paused, c.clients, mapstore(map[int64]Consumer), kConsPaused, kConsUnpaused, kLastCons, gChanPauseCalls, jChanPauseCalls
+//@   onreturn jChanPauseCalls := jChanPauseCalls + 1
+//@   onreturn jChanPaused := c
+//@   onreturn jChanPauseVal := false
+//@   onreturn jChanPauseErr := result
